@@ -8,6 +8,7 @@
 #include <cstring>
 #include <map>
 #include <random>
+#include <algorithm>
 #include <set>
 #include <string>
 #include <vector>
@@ -36,16 +37,31 @@ static void collect(const ModelPtr &m, std::multiset<std::string> &ids)
         if (u->isImport() && !u->importSource()->id().empty()) ids.insert(u->importSource()->id());
     }
     std::vector<ComponentPtr> st;
+    std::set<std::pair<std::string, std::pair<const void *, const void *>>> conns;
     for (size_t i = 0; i < m->componentCount(); ++i) st.push_back(m->component(i));
     while (!st.empty()) {
         auto c = st.back();
         st.pop_back();
         if (!c->id().empty()) ids.insert(c->id());
         if (!c->encapsulationId().empty()) ids.insert(c->encapsulationId());
-        for (size_t i = 0; i < c->variableCount(); ++i)
-            if (!c->variable(i)->id().empty()) ids.insert(c->variable(i)->id());
+        for (size_t i = 0; i < c->variableCount(); ++i) {
+            auto v = c->variable(i);
+            if (!v->id().empty()) ids.insert(v->id());
+            for (size_t e = 0; e < v->equivalentVariableCount(); ++e) {
+                auto w = v->equivalentVariable(e);
+                if (!w) continue;
+                if (v.get() < w.get()) { // each unordered pair once
+                    auto mid = Variable::equivalenceMappingId(v, w);
+                    if (!mid.empty()) ids.insert(mid);
+                }
+                auto cid = Variable::equivalenceConnectionId(v, w);
+                auto pa = v->parent().get(), pb = w->parent().get();
+                if (!cid.empty()) conns.insert({cid, {std::min(pa, pb), std::max(pa, pb)}});
+            }
+        }
         for (size_t i = 0; i < c->componentCount(); ++i) st.push_back(c->component(i));
     }
+    for (auto &k : conns) ids.insert(k.first); // a connection id once per pair of components
 }
 
 // Printer::printModel(model, true): every id="..." of the printed document is unique when the model's own ids are,
@@ -151,6 +167,11 @@ int main(int argc, char **argv)
                 vars.push_back(v);
             }
         }
+        std::vector<std::pair<VariablePtr, VariablePtr>> eqs;
+        for (int k = 0; k < 2 && vars.size() >= 2; ++k) {
+            auto x = vars[rng() % vars.size()], y = vars[rng() % vars.size()];
+            if (x != y && x->parent() != y->parent() && Variable::addEquivalence(x, y)) eqs.push_back({x, y});
+        }
         auto u = Units::create("u");
         u->addUnit("second");
         // sometimes the units is imported and still carries a unit child (whose id counts as present in the model)
@@ -164,7 +185,8 @@ int main(int argc, char **argv)
         int ne = rng() % 3;
         for (int e = 0; e < ne; ++e) {
             const char *id = autoIds[rng() % 6];
-            if (rng() % 4 == 0) u->setUnitId(0, id);
+            if (!eqs.empty() && rng() % 4 == 0) { auto &q = eqs[rng() % eqs.size()]; Variable::setEquivalenceMappingId(q.first, q.second, id); }
+            else if (rng() % 4 == 0) u->setUnitId(0, id);
             else if (rng() % 2 && !vars.empty()) vars[rng() % vars.size()]->setId(id); else comps[rng() % comps.size()]->setId(id);
         }
         std::multiset<std::string> before;
